@@ -29,7 +29,7 @@ class Outcome:
     excluded    : case fell into a guard band and was not judged
     nontrivial  : case is non-trivial by the module's rule
     """
-    __slots__ = ('cls', 'transitions', 'viols', 'excluded', 'nontrivial', 'validated')
+    __slots__ = ('cls', 'transitions', 'viols', 'excluded', 'nontrivial', 'validated', 'digest')
 
     def __init__(self, cls='ok', transitions=1, viols=None, excluded=False, nontrivial=True, validated=1):
         self.cls = cls
